@@ -5,8 +5,9 @@ from sx.core import or_
 
 PROPERTY = "C12"
 LEVEL = "model_checking"
-BOUNDS = {"hours_per_series": "N=2", "skeletons": "T1,T2,T2c(two countries on one network),T3,T5(serverless)", "k": "symbolic, k>0",
-          "drivers": "one at a time, one object at a time; driver base value and traffic symbolic"}
+BOUNDS = {"hours_per_series": "N=2", "skeletons": "T1,T1d(two devices in one pattern, also named alike),T2,T2c(two countries on one network),T3,T5(serverless)", "k": "symbolic, k>0",
+          "drivers": "one at a time, one object at a time; driver base value and traffic symbolic; fresh builds with d and k*d, "
+                     "and (T1, T5) the same change made by assignment on the computed system"}
 ASSUMPTIONS = ["k > 0; driver base value > 0; for partially driven aggregates (one country of two, one device of two, "
                "one job of several) the obligation is the affine form f(k d) - f(d) = (k-1)(f(d) - f(0))",
                "inverse drivers (lifespan, fraction of usage time) are only checked on aggregates they fully drive"]
@@ -168,7 +169,50 @@ def h_traffic(ctx, skeleton, n=2, args=None):
             ctx.eq(cb.get(t, 0), k * ca.get(t, 0), f"traffic x k: {o}.{attr} multiplied by k")
 
 
-HARNESSES = {"driver": h_driver, "traffic": h_traffic}
+def h_driver_edit(ctx, skeleton, kind, target, n=2, args=None):
+    """the driver is multiplied by k *on the live system* (plain attribute assignment): the footprints it drives are
+    multiplied (divided) by k, the others keep their value"""
+    from efootprint.abstract_modeling_classes.source_objects import SourceValue
+    from efootprint.constants.units import u
+    from harness import edits as E
+    spec = M.SKELETONS[skeleton](n, **(args or {}))
+    gt = gt_sets(spec)
+    param = kind.split(".", 1)[1]
+    slot = f"{target}.{param}"
+    sym = traffic_syms(spec)
+    hi = 24 if param == "fraction_of_usage_time" else 10 ** 6
+    sym[slot] = dict(lo=0, lo_strict=True, hi=hi, nice=NICE[param])
+    env = M.Env(ctx, symbolic=sym)
+    k = env.fresh("k", lo=0, lo_strict=True, hi=1000, nice=(2, 5))
+    d = env.get(slot, None)
+    ctx.assume(k != 1)
+    if param == "fraction_of_usage_time":
+        ctx.assume(k * d <= 24)
+    A = M.build(spec, env)
+    V.observe_system(ctx, A, "A.")
+    exp = _expect(spec, gt, kind, target)
+    before = {(o, f): V.phys(getattr(A[o], f, None))[1] for (o, f) in exp}
+    _, un = E.param_info(spec, target, param)
+    setattr(A[target], param, SourceValue(k * d * u(un)))
+    n_driven = 0
+    for (o, f), e in exp.items():
+        if e in (None, "affine"):
+            continue
+        ca, cb = before[(o, f)], V.phys(getattr(A[o], f, None))[1]
+        lab = f"{kind} x k on the live system: {o}.{f}"
+        n_driven += e != "same"
+        for t in sorted(set(ca) | set(cb)):
+            a, b = ca.get(t, 0), cb.get(t, 0)
+            if e == "same":
+                ctx.eq(b, a, f"{lab} unchanged")
+            elif e == "prop":
+                ctx.eq(b, k * a, f"{lab} multiplied by k")
+            else:
+                ctx.eq(b * k, a, f"{lab} divided by k")
+    ctx.require(n_driven > 0, f"{kind}: at least one footprint is fully driven")
+
+
+HARNESSES = {"driver": h_driver, "traffic": h_traffic, "driver_edit": h_driver_edit}
 
 ROWS = {
     "T1": [("server.power_usage_effectiveness", "srv"), ("server.average_carbon_intensity", "srv"),
@@ -192,6 +236,11 @@ ROWS = {
 }
 
 
+def _expect_has_full(sk, kind, target):
+    spec = M.SKELETONS[sk](2)
+    return any(e in ("prop", "inv") for e in _expect(spec, gt_sets(spec), kind, target).values())
+
+
 def plan(tier, seed):
     p = []
     for sk, rows in ROWS.items():
@@ -201,6 +250,17 @@ def plan(tier, seed):
             p.append(("driver", dict(skeleton=sk, kind=kind, target=target, n=2)))
     for sk in ("T1", "T3", "T5", "T2c"):
         p.append(("traffic", dict(skeleton=sk, n=2)))
+    # a usage pattern with two devices (partially driven device footprints), also with two devices named alike
+    for same in (False, True):
+        for kind, target in (("device.power", "dev"), ("device.power", "dev2"), ("device.carbon_footprint_fabrication", "dev"),
+                             ("device.carbon_footprint_fabrication", "dev2")):
+            if same or tier == "thorough" or target == "dev2":
+                p.append(("driver", dict(skeleton="T1d", kind=kind, target=target, n=2, args={"same_names": same})))
+    # drivers changed in place on a computed system
+    for sk, rows in (("T1", ROWS["T1"]), ("T5", ROWS["T5"])):
+        for kind, target in rows:
+            if _expect_has_full(sk, kind, target):
+                p.append(("driver_edit", dict(skeleton=sk, kind=kind, target=target, n=2)))
     if tier == "thorough":
         for sk, rows in ROWS.items():
             for kind, target in rows:
